@@ -1,5 +1,7 @@
 mod adapter;
+mod builders;
 mod c04;
+mod c08;
 mod c17;
 mod c19;
 mod codec;
@@ -17,6 +19,9 @@ fn main() {
         "C05" => streams::run_c05(&ctx),
         "C06" => streams::run_c06(&ctx),
         "C07" => streams::run_c07(&ctx),
+        "C08" => c08::run(&ctx),
+        "C09" => builders::run_c09(&ctx),
+        "C10" => builders::run_c10(&ctx),
         "C13" => tables::run_c13(&ctx),
         "C14" => tables::run_c14(&ctx),
         "C16" => tables::run_c16(&ctx),
